@@ -250,11 +250,26 @@ pub struct Step {
     pub kind: u8,
     pub id: usize,
     pub actions: Vec<AEv>,
+    /// timers the simulator let expire after the previous step and before this
+    /// event was handed to the framework, in order (H2b)
+    pub pre: Vec<Fire>,
+}
+
+/// An action timer (`action` = the scheduled action the simulator executed) or
+/// an internal timer (`action` = None) expired at `t`.
+#[derive(Clone, Debug)]
+pub struct Fire {
+    pub client: bool,
+    pub t: i128,
+    pub machine: usize,
+    pub action: Option<AEv>,
 }
 
 pub struct SimOut {
     pub trace: Vec<TEv>,
     pub steps: Vec<Step>,
+    /// expiries after the last processed event
+    pub tail: Vec<Fire>,
 }
 
 /// Run the simulator on a case. Err = panic description.
@@ -320,8 +335,32 @@ pub fn run_sim(case: &SimCase) -> Result<SimOut, String> {
         })
         .collect();
     let mut steps: Vec<Step> = vec![];
+    let mut fires: Vec<Fire> = vec![];
     for r in log {
         match r {
+            SimRec::ActionFired {
+                is_client,
+                time,
+                action,
+            } => {
+                let a = act_of(&action);
+                fires.push(Fire {
+                    client: is_client,
+                    t: rel(time),
+                    machine: a.machine,
+                    action: Some(a),
+                });
+            }
+            SimRec::TimerFired {
+                is_client,
+                time,
+                machine,
+            } => fires.push(Fire {
+                client: is_client,
+                t: rel(time),
+                machine,
+                action: None,
+            }),
             SimRec::Event {
                 is_client,
                 time,
@@ -334,6 +373,7 @@ pub fn run_sim(case: &SimCase) -> Result<SimOut, String> {
                     kind,
                     id,
                     actions: vec![],
+                    pre: std::mem::take(&mut fires),
                 });
             }
             SimRec::Action { action, .. } => {
@@ -343,7 +383,11 @@ pub fn run_sim(case: &SimCase) -> Result<SimOut, String> {
             }
         }
     }
-    Ok(SimOut { trace, steps })
+    Ok(SimOut {
+        trace,
+        steps,
+        tail: fires,
+    })
 }
 
 // ---------------------------------------------------------------------------
